@@ -167,7 +167,7 @@ PartBase(p) == p.b
 (* case bodies (cases in order, default last), then those of plurals       *)
 (* nested in the cases, and so on (breadth first).                         *)
 (***************************************************************************)
-MsgIsSubst(p) == p.k # "text"
+MsgIsSubst(p) == p.k \notin {"text", "btext"}
 MsgSubstOf(body) == SelectSeq(body, MsgIsSubst)
 
 RECURSIVE MsgFlatCases(_)
@@ -497,7 +497,69 @@ MsgTagBodies ==
      LET n == MsgTagNames[i] IN
      << MTag("<" \o n \o ">"), MText("t"), MTag("</" \o n \o ">"), MTag("<" \o n \o "/>"), MTag("<" \o n \o " k=v>") >>]
 
-MsgAllExtraBodies == MsgExtraBodies \o MsgTagBodies
+\* every kind of expression that can be printed in a message, one body each
+\* (plus the globals together): the base name is the variable, the LAST key of
+\* a data reference (also null-safe, also of $ij), the part of a global's name
+\* after its LAST dot; XXX for everything else.
+MsgKeyNs(key)  == [k |-> "key", ns |-> TRUE, key |-> key]
+MsgStr(v)      == [k |-> "str", v |-> v]
+MsgG1 == MsgGlobal("MAX_ITEMS")
+MsgG2 == MsgGlobal("app.MAX_ITEMS")
+MsgG3 == MsgGlobal("app.settings.MAX_ITEMS")
+MsgG4 == MsgGlobal("a.b.c.maxItems")
+MsgExprBodies == <<
+  << MText("You may pick "), MPrint(MsgG1), MText(" items") >>,
+  << MText("You may pick "), MPrint(MsgG2), MText(" items") >>,
+  << MText("You may pick "), MPrint(MsgG3), MText(" items") >>,
+  << MText("You may pick "), MPrint(MsgG4), MText(" items") >>,
+  << MPrint(MsgG3), MPrint(MsgG2), MPrint(MsgG1), MPrint(MsgG4), MsgP("maxItems") >>,
+  << MText("w "), MPrint(MsgRef("a", <<MsgKeyAcc("fooBar"), MsgKeyAcc("bazQux")>>)) >>,
+  << MText("w "), MPrint(MsgRef("a", <<MsgKeyAcc("b"), MsgKeyAcc("c"), MsgKeyAcc("lastKey")>>)) >>,
+  << MText("w "), MPrint(MsgRef("a", <<MsgKeyNs("b"), MsgKeyNs("lastKey")>>)) >>,
+  << MText("w "), MPrint(MsgRef("a", <<MsgExprAcc(MsgStr("b"))>>)) >>,
+  << MText("w "), MPrint(MsgRef("a", <<MsgKeyAcc("b"), MsgExprAcc(MsgVar("x"))>>)) >>,
+  << MText("w "), MPrint(MsgRef("a", <<MsgExprAcc(MsgVar("x")), MsgKeyAcc("afterBracket")>>)) >>,
+  << MText("w "), MPrint(MsgRef("ij", <<MsgKeyAcc("a"), MsgKeyAcc("deepKey")>>)) >>,
+  << MText("w "), MPrint(MsgFn("length", <<MsgVar("a")>>)) >>,
+  << MText("w "), MPrint(MsgFn("round", <<MsgRef("a", <<MsgKeyAcc("b")>>)>>)) >>,
+  << MText("w "), MPrint(MsgInt(7)), MPrint(MsgStr("s")), MPrint(MsgBool(TRUE)), MPrint([k |-> "null"]) >>,
+  << MText("w "), MPrint([k |-> "neg", a |-> MsgVar("a")]), MPrint([k |-> "not", a |-> MsgVar("a")]) >>,
+  << MText("w "), MPrint([k |-> "tern", c |-> MsgVar("a"), a |-> MsgInt(1), b |-> MsgInt(2)]),
+     MPrint(MsgBin("elvis", MsgVar("a"), MsgStr("x"))), MPrint(MsgBin("and", MsgVar("a"), MsgVar("b"))) >>
+>>
+
+MsgAllExtraBodies == MsgExtraBodies \o MsgTagBodies \o MsgExprBodies
+
+\* Message text is a sequence of BYTES (a template need not be valid UTF-8: a
+\* file saved as Latin-1 has one byte >= 128 per accented letter).  The id is a
+\* function of the bytes: [k |-> "btext", bytes |-> Seq(0..255)].
+MsgByteTexts == <<
+  <<72, 252, 108, 108, 101>>,           \* "H\xfclle"   Latin-1 Hülle
+  <<72, 246, 108, 108, 101>>,           \* "H\xf6lle"   Latin-1 Hölle
+  <<72, 233, 108, 108, 101>>,
+  <<72, 255, 108, 108, 101>>,
+  <<72, 128, 108, 108, 101>>,
+  <<72, 252, 252, 108, 108, 101>>,      \* two invalid bytes in a row
+  <<72, 195, 188, 108, 108, 101>>,      \* "Hülle" in UTF-8
+  <<72, 239, 191, 189, 108, 108, 101>>, \* a real U+FFFD
+  <<72, 195, 108, 108, 101>>,           \* a lead byte without continuation
+  <<72, 117, 108, 108, 101>>,           \* ASCII "Hulle"
+  <<252>>, <<246>>, <<108, 101, 252>>, <<252, 108, 101>> >>
+MsgFamBytes == {[kind |-> "bytes", i |-> i] : i \in 1..Len(MsgByteTexts)}
+MsgFpBytes(b) == <<"fpb", b>>
+
+\* what "made valid UTF-8" does to a byte sequence: every maximal run of bytes
+\* that are not part of a well-formed sequence becomes one U+FFFD (65533)
+RECURSIVE MsgToValidFrom(_, _, _)
+MsgToValidFrom(b, i, inBad) ==
+  IF i > Len(b) THEN <<>>
+  ELSE LET x == b[i]
+           cont(j) == j <= Len(b) /\ b[j] >= 128 /\ b[j] <= 191 IN
+       IF x < 128 THEN <<x>> \o MsgToValidFrom(b, i + 1, FALSE)
+       ELSE IF x >= 194 /\ x <= 223 /\ cont(i + 1) THEN <<x, b[i + 1]>> \o MsgToValidFrom(b, i + 2, FALSE)
+       ELSE IF x >= 225 /\ x <= 239 /\ cont(i + 1) /\ cont(i + 2) THEN <<x, b[i + 1], b[i + 2]>> \o MsgToValidFrom(b, i + 3, FALSE)
+       ELSE (IF inBad THEN <<>> ELSE <<65533>>) \o MsgToValidFrom(b, i + 1, TRUE)
+MsgToValid(b) == MsgToValidFrom(b, 1, FALSE)
 
 \* Nested plurals: {plural $n}{case 1}S1 {plural $m}{case 1}S2{default}S3{/plural} S4{default}S5{/plural}
 \* (or the inner plural in the default), the slots filled with placeholders that
@@ -539,6 +601,7 @@ MsgFamBody(d) ==
   ELSE IF d.kind = "extra" THEN MsgAllExtraBodies[d.i]
   ELSE IF d.kind = "nested" THEN MsgNestBody(d)
   ELSE IF d.kind = "split" THEN << MText(MsgPrefixStr(MsgSplitStrings[d.s], d.at)) >>
+  ELSE IF d.kind = "bytes" THEN << [k |-> "btext", bytes |-> MsgByteTexts[d.i]] >>
   ELSE << [k |-> "plural", e |-> MsgPluralSubjects[d.subj],
            cases |-> [i \in 1..Len(d.cb) |-> MCase(MsgCaseSets[d.cs][i], MsgPick(MsgInnerPool, d.cb[i]))],
            dflt |-> MsgPick(MsgInnerPool, d.db),
@@ -552,6 +615,7 @@ MsgFamId(d) ==
   IF d.kind = "flat" THEN "F" \o MsgIxStr(d.ix)
   ELSE IF d.kind = "extra" THEN "X" \o (IF d.i < 10 THEN "0" ELSE "") \o ToString(d.i)
   ELSE IF d.kind = "nested" THEN "N" \o (IF d.indef THEN "d" ELSE "c") \o MsgIxStr(<<d.s1, d.s2, d.s3, d.s4, d.s5>>)
+  ELSE IF d.kind = "bytes" THEN "Y" \o (IF d.i < 10 THEN "0" ELSE "") \o ToString(d.i)
   ELSE IF d.kind = "split" THEN "S" \o ToString(d.s) \o "." \o (IF d.at < 10 THEN "0" ELSE "") \o ToString(d.at)
   ELSE "P" \o ToString(d.subj) \o "c" \o ToString(d.cs) \o ":" \o MsgIxStrs(d.cb) \o "d" \o MsgIxStr(d.db)
 =============================================================================
